@@ -41,6 +41,7 @@ func (s *store) image() []byte {
 type hist struct {
 	kind string
 	ops  []string
+	reg  func() *region.Region // the handle in use, for comparing its tables with the file
 }
 
 func (h *hist) add(s string) { h.ops = append(h.ops, s) }
@@ -79,6 +80,14 @@ func validate(c *vm.Ctx, img []byte, model map[[2]int][]byte, h *hist, full bool
 		if !ok {
 			c.Violation("anvil/chunk-missing", fmt.Sprintf("after %s chunk (%d,%d) is not in the header", after, k[0], k[1]), h.wit())
 			return false
+		}
+		// the timestamp the independent parser finds in the chunk's slot of the second header sector is the one the
+		// handle holds for that chunk
+		if h.reg != nil {
+			if reg := h.reg(); reg != nil && reg.Timestamps[k[1]][k[0]] != e.Timestamp {
+				c.Violation("anvil/timestamp-slot", fmt.Sprintf("after %s chunk (%d,%d): the file's header holds timestamp %d in its slot, the handle holds %d", after, k[0], k[1], e.Timestamp, reg.Timestamps[k[1]][k[0]]), h.wit())
+				return false
+			}
 		}
 		if (full || k == only) && !bytes.Equal(e.Data, want) {
 			c.Violation("anvil/stored-bytes-differ", fmt.Sprintf("after %s chunk (%d,%d) stores %d bytes that differ from the %d bytes last written", after, k[0], k[1], len(e.Data), len(want)), h.wit())
@@ -119,6 +128,7 @@ func runHistory(c *vm.Ctx, r *vm.Rand, hi int, nops int, flavour string, big boo
 			reg.Close()
 		}
 	}()
+	h.reg = func() *region.Region { return reg }
 	model := map[[2]int][]byte{}
 	freed := map[int]bool{} // sectors that were used once and released (for event classification)
 	ops := regiongen.Gen(r, nops, big)
